@@ -102,6 +102,7 @@ class RegistryServer(object):
     def cmd_register(self, host, names, port):
         """implementation of the ``register`` command"""
         self.logger.debug("registering %s:%s as %s", host, port, ", ".join(names))
+        brine.dump(((host, port),))  # refuse (here, inside _work's guard) an address no query reply could carry
         for name in names:
             self._add_service(name.upper(), (host, port))
         return "OK"
